@@ -79,7 +79,7 @@ def build_case(case, ctx):
         reaction = None
         for attempt in range(40):
             spec = R.synth_spec(rng0, n_final=desc["n_final"], formalism=desc["formalism"], max_spin2=3 if desc["n_final"] == 3 else 2,
-                                allow_massless=attempt % 2 == 0, max_transitions=80)
+                                allow_massless=attempt % 2 == 0, max_transitions=80, shuffle_names=desc["seed"] % 2 == 1)
             r = R.build_synth(spec)
             if r is not None and R.has_complete_helicities(r):
                 reaction = r
@@ -132,7 +132,7 @@ def run_case(case, rec, ctx):
     label = f"{name} [{C.config_key(cfg)}]"
     feats = {"n_topologies": len(tops), "spinless_final_state": spinless_final, "align": cfg["align"].rstrip("123"),
              "multi_topology_with_opposite_helicity_decaying_child": len(tops) >= 2 and opposite_helicity_decaying_child(reaction),
-             "axisangle_with_massless_spinful_particle": cfg["align"] == "axisangle" and any(p.mass == 0 and p.spin > 0 for p in reaction.final_state.values()),
+             **R.massless_alignment_features(reaction, cfg["align"]),
              "dpd_multi_topology_with_initial_spin": cfg["align"].startswith("dpd") and len(tops) >= 2 and any(p.spin > 0 for p in reaction.initial_state.values()),
              "multi_topology_axisangle_half_integer_spin": cfg["align"] == "axisangle" and len(tops) >= 2 and any(
                  float(p.spin) % 1 for p in list(reaction.final_state.values()) + list(reaction.initial_state.values())),
